@@ -2,8 +2,11 @@ package props
 
 import (
 	"encoding/json"
-	"strings"
 	"godsverif/core"
+	"strings"
+
+	"github.com/emirpasic/gods/v2/maps/treebidimap"
+	"github.com/emirpasic/gods/v2/maps/treemap"
 )
 
 // KVMon shadows one key-value container with the abstract map and applies
@@ -30,6 +33,16 @@ func NewKVMon[K comparable, V comparable](c *core.Ctx, a *KV[K, V], d *Dom[K]) *
 }
 
 func (m *KVMon[K, V]) n() int { return m.Mod.Len() }
+
+// someKey is a key the monitor may ask the container about when no particular
+// key was touched: a live one, else the first of the alphabet - never the zero
+// value of K, which need not be in the comparator's domain (a nil pointer).
+func (m *KVMon[K, V]) someKey() K {
+	if m.n() > 0 {
+		return m.Mod.Ents[0].Key
+	}
+	return m.D.Alpha[0]
+}
 
 func (m *KVMon[K, V]) resetCount() {
 	if m.A.Count != nil {
@@ -93,6 +106,14 @@ func (m *KVMon[K, V]) Put(k K, v V) {
 	nb := m.n()
 	m.resetCount()
 	m.A.M.Put(k, v)
+	m.modelPut(k, v)
+	m.checkWork("Put", nb)
+	m.after(k, true)
+}
+
+// modelPut applies Put(k, v) to the abstract value.
+func (m *KVMon[K, V]) modelPut(k K, v V) {
+	c := m.c
 	if m.Inv != nil {
 		// bidi rule: drop the pair previously held by k and the pair
 		// previously holding v, then add (k, v)
@@ -111,8 +132,88 @@ func (m *KVMon[K, V]) Put(k K, v V) {
 	} else {
 		m.Mod.Put(k, v)
 	}
-	m.checkWork("Put", nb)
-	m.after(k, true)
+}
+
+// Derive replaces the container under test by one the LIBRARY derived from it:
+// the result of Map under a permutation of the key alphabet (not monotone, so
+// the result has to be built by the comparator, not in production order) or of
+// Select. A derived TreeMap / TreeBidiMap is a comparator-ordered container
+// like any other: the history and all monitors simply continue on it. The
+// model is rebuilt from the pairs the container listed just before (checked
+// against the model first), through the same Put rule, in iteration order.
+func (m *KVMon[K, V]) Derive() {
+	switch m.A.Raw.(type) {
+	case *treemap.Map[K, V], *treebidimap.Map[K, V]:
+	default:
+		return
+	}
+	zk := m.someKey()
+	r := m.c.R
+	m.c.ObserveNow()
+	m.calls = 15
+	m.after(zk, false)
+	keys := append([]K(nil), m.A.M.Keys()...)
+	vals := make([]V, len(keys))
+	for i, k := range keys {
+		vals[i], _ = m.A.M.Get(k)
+	}
+	alpha := m.D.Alpha
+	perm := r.Perm(len(alpha))
+	f := func(k K) K {
+		for i, a := range alpha {
+			if identical(a, k) {
+				return alpha[perm[i]]
+			}
+		}
+		return k
+	}
+	keep := func(k K) bool { return hashVals([]K{k})%3 != 0 }
+	sel := r.Intn(3) == 0
+	if sel {
+		m.c.Begin(m.A.Name, "Select", "a third of the keys rejected; the history continues on the result")
+	} else {
+		m.c.Begin(m.A.Name, "Map", "keys permuted within the alphabet; the history continues on the result", perm)
+	}
+	cmN := NamedCmp[K]{Name: m.A.CmpName, F: m.A.KCmp}
+	oldFresh, oldName := m.A.Fresh, m.A.CmpName
+	var na *KV[K, V]
+	switch t := m.A.Raw.(type) {
+	case *treemap.Map[K, V]:
+		var d *treemap.Map[K, V]
+		if sel {
+			d = t.Select(func(k K, v V) bool { return keep(k) })
+		} else {
+			d = t.Map(func(k K, v V) (K, V) { return f(k), v })
+		}
+		na = newTreeMapOn[K, V](cmN, func() any { return d })
+	case *treebidimap.Map[K, V]:
+		var d *treebidimap.Map[K, V]
+		if sel {
+			d = t.Select(func(k K, v V) bool { return keep(k) })
+		} else {
+			d = t.Map(func(k K, v V) (K, V) { return f(k), v })
+		}
+		na = newTreeBidiOn[K, V](cmN, NamedCmp[V]{Name: "values", F: m.A.VCmp}, func() any { return d })
+	}
+	na.Fresh, na.CmpName = oldFresh, oldName
+	m.A = na
+	m.Mod.Clear()
+	if m.Inv != nil {
+		m.Inv.Clear()
+	}
+	for i, k := range keys {
+		if sel {
+			if keep(k) {
+				m.modelPut(k, vals[i])
+			}
+		} else {
+			m.modelPut(f(k), vals[i])
+		}
+	}
+	m.c.Count("obs:derived-container", 1)
+	m.c.ObserveNow()
+	m.calls = 15
+	m.after(zk, true)
 }
 
 func (m *KVMon[K, V]) Remove(k K) {
@@ -167,7 +268,7 @@ func (m *KVMon[K, V]) Clear() {
 	if m.Inv != nil {
 		m.Inv.Clear()
 	}
-	var zk K
+	zk := m.someKey()
 	m.after(zk, true)
 }
 
@@ -201,7 +302,7 @@ func (m *KVMon[K, V]) Reload() {
 		return
 	}
 	m.c.Count("obs:reload-own-json", 1)
-	var zk K
+	zk := m.someKey()
 	if m.n() > 0 {
 		zk = m.Mod.Ents[m.c.R.Intn(m.n())].Key
 	}
@@ -255,7 +356,7 @@ func (m *KVMon[K, V]) ReloadForeign() {
 	if sz := m.A.M.Size(); sz != m.n() {
 		m.c.Fail("size", "after-foreign-load", "%s.Size() = %d after FromJSON(%s), but Keys() lists %d distinct keys", m.A.Name, sz, data, m.n())
 	}
-	var zk K
+	zk := m.someKey()
 	if m.n() > 0 {
 		zk = m.Mod.Ents[0].Key
 	}
@@ -352,7 +453,7 @@ func (m *KVMon[K, V]) ReloadForeignBidi() {
 	if sz, nv := m.A.M.Size(), len(m.A.M.Values()); sz != m.n() || nv != m.n() {
 		m.c.Fail("bidi-load", "size", "%s after FromJSON(%s): Size() = %d, len(Values()) = %d, Keys() lists %d distinct keys", m.A.Name, data, sz, nv, m.n())
 	}
-	var zk K
+	zk := m.someKey()
 	if m.n() > 0 {
 		zk = m.Mod.Ents[0].Key
 	}
@@ -446,7 +547,7 @@ func (m *KVMon[K, V]) after(touched K, mutated bool) {
 // observation schedule.
 func (m *KVMon[K, V]) Final() {
 	m.c.ObserveNow()
-	var zk K
+	zk := m.someKey()
 	if m.n() > 0 {
 		zk = m.Mod.Ents[0].Key
 	}
